@@ -356,8 +356,8 @@ func (r *Runner) Run() {
 	}
 	c.Set("cells_enumerated", len(cells))
 	// (5) random compositions and mutants
-	nRand := c.Pick(9000, 600000)
-	nMut := c.Pick(8000, 500000)
+	nRand := c.Pick(9000, 60000)
+	nMut := c.Pick(8000, 50000)
 	rr := c.Rand("random")
 	for i := 0; i < nRand; i++ {
 		progs = append(progs, Prog{"random:" + itoa(i), Random(rr)})
